@@ -130,6 +130,22 @@ func runC42(c *core.Ctx) {
 			c.Touch(fn)
 			for root := range roots {
 				nSites++
+				if ri, isI := root.(ssa.Instruction); isI && len(helperUsers) > 0 {
+					// a formula shared through a helper counts once per call that can reach it
+					pairs := 0
+					for _, u := range helperUsers {
+						for _, ci := range ir.Calls(u, func(ci ssa.CallInstruction) bool { return ci.Common().StaticCallee() == fn }) {
+							unbind := ir.BindParams(fn, ci.Common().Args)
+							if eng.ReachUnderBoundConsts(fn).Instr(ri) {
+								pairs++
+							}
+							unbind()
+						}
+					}
+					if pairs > 1 {
+						nSites += pairs - 1
+					}
+				}
 				var leaf ssa.Value
 				multi := false
 				tree, err := eng.ExtractExpr(root, func(v ssa.Value) bool {
@@ -147,6 +163,7 @@ func runC42(c *core.Ctx) {
 					multi = true
 					return true
 				})
+				rootInstr, _ := root.(ssa.Instruction)
 				pos := c.P.Rel(root.(ssa.Instruction).Pos())
 				if err != nil || multi {
 					c.Broken("C42.threshold-formula", fn, "threshold tree over a single count", pos, sprintf("err=%v multi=%v", err, multi))
@@ -168,7 +185,7 @@ func runC42(c *core.Ctx) {
 				}
 				c.Decide(matched != "", "C42.threshold-formula", fn, "threshold "+tree.String()+" ≡ one of "+strings.Join(allowed, " | "), pos, why)
 				// which count is N?  (block acceptance: the validator set in force, not what the header lists)
-				for _, lv := range c42LeafValues(c, fn, leaf, helperUsers) {
+				for _, lv := range c42LeafValues(c, fn, leaf, helperUsers, rootInstr) {
 					switch {
 					case eng.IsLenOf(func(v ssa.Value) bool { p, ok := ir.Strip(v).(*ssa.Parameter); return ok && p.Name() == "vbftPeerInfo" })(lv):
 						leafKinds[name+"|peers"]++
@@ -177,7 +194,7 @@ func runC42(c *core.Ctx) {
 					}
 				}
 				for _, u := range helperUsers {
-					for _, lv := range c42LeafValues(c, fn, leaf, helperUsers) {
+					for _, lv := range c42LeafValues(c, fn, leaf, helperUsers, rootInstr) {
 						switch {
 						case eng.IsLenOf(func(v ssa.Value) bool { p, ok := ir.Strip(v).(*ssa.Parameter); return ok && p.Name() == "vbftPeerInfo" })(lv):
 							leafKinds[ir.FuncName(u)+"|peers"]++
@@ -290,7 +307,7 @@ func sameCount(a, b ssa.Value) bool {
 // c42LeafValues: the count a threshold tree ranges over — the leaf itself, or,
 // when the tree sits in a private helper and the leaf is its parameter, the
 // arguments the listed users pass for it.
-func c42LeafValues(c *core.Ctx, fn *ssa.Function, leaf ssa.Value, users []*ssa.Function) []ssa.Value {
+func c42LeafValues(c *core.Ctx, fn *ssa.Function, leaf ssa.Value, users []*ssa.Function, site ssa.Instruction) []ssa.Value {
 	if leaf == nil {
 		return nil
 	}
@@ -308,6 +325,15 @@ func c42LeafValues(c *core.Ctx, fn *ssa.Function, leaf ssa.Value, users []*ssa.F
 	for _, u := range users {
 		for _, ci := range ir.Calls(u, func(ci ssa.CallInstruction) bool { return ci.Common().StaticCallee() == fn }) {
 			if a := ci.Common().Args; idx >= 0 && idx < len(a) {
+				// a call that fixes a boolean parameter selects some of the helper's formulas only
+				if site != nil {
+					unbind := ir.BindParams(fn, a)
+					feasible := eng.ReachUnderBoundConsts(fn).Instr(site)
+					unbind()
+					if !feasible {
+						continue
+					}
+				}
 				out = append(out, a[idx])
 			}
 		}
